@@ -263,7 +263,14 @@ def judge_c08(obs: L.Obs) -> list[tuple[str, str]]:
             continue
         v = obs.conns[a["conn"]]
         if a["label"] == "final" and v.obj.connection_state.name != "CLOSED":
-            continue
+            forced = [g for g in v.graceful if g[1] == "force"]
+            _stat(f"c08/final-audit-of-open-connection/force-requested={bool(forced)}")
+            if not forced:
+                continue
+            # force_disconnect() is a close cause at whatever point of the connection's life it comes: it was entered (in state g[2]) and the
+            # connection is still not closed at the end of the run -- everything it holds is charged to it
+            out.append((f"C08/close-request-ignored/{forced[0][2]}", f"force_disconnect() was called on connection {v.idx} in state {forced[0][2]} but the connection is "
+                        f"{v.obj.connection_state.name} at the end of the run (cause {cause_tag(obs)})"))
         tag = f"[{a['label']} audit of connection {a['conn']}, cause {cause_tag(obs)}]"
         _stat(f"c08/audits/{a['label']}")
         _stat("c08/write_attempts_after_close_advisory", len(a.get("write_attempts_after_close") or []))
